@@ -33,7 +33,7 @@ var (
 )
 
 type stats struct {
-	locks, unlocks, gos, yields, dense, onces, ranges, skipped, files, pools, selects int
+	locks, unlocks, gos, yields, dense, onces, ranges, skipped, files, pools, selects, moves int
 }
 
 var st stats
@@ -137,8 +137,8 @@ func main() {
 	for _, w := range warnings {
 		fmt.Fprintln(os.Stderr, "warn:", w)
 	}
-	fmt.Printf("instrumented files=%d locks=%d unlocks=%d go=%d yields=%d dense_yields=%d once=%d map_ranges=%d pools=%d selects=%d skipped=%d\n",
-		st.files, st.locks, st.unlocks, st.gos, st.yields, st.dense, st.onces, st.ranges, st.pools, st.selects, st.skipped)
+	fmt.Printf("instrumented files=%d locks=%d unlocks=%d go=%d yields=%d dense_yields=%d once=%d map_ranges=%d pools=%d selects=%d moves=%d skipped=%d\n",
+		st.files, st.locks, st.unlocks, st.gos, st.yields, st.dense, st.onces, st.ranges, st.pools, st.selects, st.moves, st.skipped)
 }
 
 // applyRetypes is a textual pre-pass, run before type-checking: an overlay file
@@ -322,8 +322,78 @@ func (r *rewriter) rewritePools(f *ast.File) {
 	})
 }
 
+// rewriteMoves makes bulk byte moves countable: copy(dst, src) becomes verifhook.Copied(copy(dst, src))
+// and append(x, y...) with a []byte/string y becomes append(x, verifhook.MovedBytes(y)...) (MovedString).
+// Behaviour is unchanged; the hook adds the number of bytes to a process-wide counter that cost
+// oracles read (work per delivered byte must not grow with the amount buffered; a memmove is one
+// statement, invisible to step counts and to the allocator).
+func (r *rewriter) rewriteMoves(f *ast.File) {
+	hook := func(name string, arg ast.Expr) *ast.CallExpr {
+		return &ast.CallExpr{Fun: &ast.SelectorExpr{X: ast.NewIdent("verifhook"), Sel: ast.NewIdent(name)}, Args: []ast.Expr{arg}}
+	}
+	byteish := func(e ast.Expr) string {
+		t := r.info.TypeOf(e)
+		if t == nil {
+			return ""
+		}
+		switch u := t.Underlying().(type) {
+		case *types.Slice:
+			if b, ok := u.Elem().Underlying().(*types.Basic); ok && b.Kind() == types.Uint8 {
+				return "MovedBytes"
+			}
+		case *types.Basic:
+			if u.Info()&types.IsString != 0 && u.Kind() != types.UntypedString {
+				return "MovedString"
+			}
+		}
+		return ""
+	}
+	// the call of a defer/go statement is evaluated later: wrapping it would move the evaluation
+	deferred := map[*ast.CallExpr]bool{}
+	ast.Inspect(f, func(n ast.Node) bool {
+		switch x := n.(type) {
+		case *ast.DeferStmt:
+			deferred[x.Call] = true
+		case *ast.GoStmt:
+			deferred[x.Call] = true
+		}
+		return true
+	})
+	ast.Inspect(f, func(n ast.Node) bool {
+		call, ok := n.(*ast.CallExpr)
+		if !ok || deferred[call] {
+			return true
+		}
+		id, ok := call.Fun.(*ast.Ident)
+		if !ok {
+			return true
+		}
+		if _, isBuiltin := r.info.Uses[id].(*types.Builtin); !isBuiltin {
+			return true
+		}
+		switch {
+		case id.Name == "copy" && len(call.Args) == 2:
+			inner := &ast.CallExpr{Fun: call.Fun, Lparen: call.Lparen, Args: call.Args, Rparen: call.Rparen}
+			call.Fun = &ast.SelectorExpr{X: ast.NewIdent("verifhook"), Sel: ast.NewIdent("Copied")}
+			call.Args = []ast.Expr{inner}
+			call.Ellipsis = token.NoPos
+			r.changed = true
+			st.moves++
+			return false
+		case id.Name == "append" && len(call.Args) == 2 && call.Ellipsis != token.NoPos:
+			if name := byteish(call.Args[1]); name != "" {
+				call.Args[1] = hook(name, call.Args[1])
+				r.changed = true
+				st.moves++
+			}
+		}
+		return true
+	})
+}
+
 func (r *rewriter) file(f *ast.File) bool {
 	r.rewritePools(f)
+	r.rewriteMoves(f)
 	for _, d := range f.Decls {
 		fd, ok := d.(*ast.FuncDecl)
 		if !ok || fd.Body == nil {
